@@ -241,6 +241,24 @@ func (s *session) run(nG int, sharedParent bool) ([]cty.Value, []hcl.Diagnostics
 	return vals, diags
 }
 
+// hookFreeStress is the fallback when the instrumented operations no longer pass through the
+// hooks (the symbol table was restructured): the schedules cannot be forced or recorded, but the
+// verdict relation itself needs no hook. Free-running rounds of 8 goroutines are compared with the
+// evaluation alone; a difference is a violation shown on the real code. Returns true if it reported one.
+func (s *session) hookFreeStress(c *core.Check) bool {
+	s.doGate, s.doPert = false, false
+	hclsyntax.VerifHook = nil
+	defer func() { hclsyntax.VerifHook = s.hook }()
+	for k := 0; k < 3000; k++ {
+		vals, diags := s.run(8, k%2 == 1)
+		c.Count("evaluations", 8)
+		if !checkRun(c, "free-running round (hooks bypassed)", 8, vals, diags, nil, map[string]any{"kind": "hook-free-stress", "round": k}) {
+			return true
+		}
+	}
+	return false
+}
+
 func expected(g int) cty.Value {
 	n := func(i, j int) cty.Value { return cty.NumberIntVal(int64(100*g + 10*i + j)) }
 	return cty.TupleVal([]cty.Value{cty.ListVal([]cty.Value{n(1, 1)}), cty.ListVal([]cty.Value{n(2, 1)})})
@@ -343,12 +361,16 @@ func Run(c *core.Check) {
 			return
 		}
 		if s.gateLoose {
-			c.Broken("schedule %d: an operation never reached its under-lock hook (hooks bypassed by a code change?)", k)
+			if !s.hookFreeStress(c) {
+				c.Broken("schedule %d: an operation never reached its under-lock hook (hooks bypassed by a code change?)", k)
+			}
 			return
 		}
 		// the real run must have followed the TLC behaviour exactly
 		if len(s.events) != len(sc) {
-			c.Broken("schedule %d has %d steps but the implementation performed %d symbol operations", k, len(sc), len(s.events))
+			if !s.hookFreeStress(c) {
+				c.Broken("schedule %d has %d steps but the implementation performed %d symbol operations", k, len(sc), len(s.events))
+			}
 			return
 		}
 		for i, e := range s.events {
